@@ -51,6 +51,17 @@ def certify(chk, tag, V, F, r, desc, expect_strict=True):
     return ok, neigh, edges, cert
 
 
+def faces_as(rng, F):
+    """the same face lists in one of the containers / element types a caller may use for vertex indices"""
+    # (documented as list(list); index arrays of any integer type are what callers pass in practice; tuples are not accepted by numpy indexing)
+    form = rng.choice(["int64", "int32", "uint32", "uint8", "uint64", "list", "int16"])
+    if form == "list":
+        return [list(map(int, f)) for f in F]
+    if form == "uint8" and max(max(f) for f in F) > 250:
+        form = "uint32"
+    return [np.array(f, dtype=form) for f in F]
+
+
 def run(chk):
     import coxeter
 
@@ -89,7 +100,7 @@ def run(chk):
             elif mode == "shift":
                 s = int(rng.integers(len(g))); g = g[s:] + g[:s]
             Fs.append(g)
-        st, ph = C.excname(lambda: coxeter.shapes.Polyhedron(Vr, [np.array(f) for f in Fs], faces_are_convex=True))
+        st, ph = C.excname(lambda: coxeter.shapes.Polyhedron(Vr, faces_as(rng, Fs), faces_are_convex=True))
         if st == "ok":
             st, _ = C.excname(ph.sort_faces)
         if st != "ok":
@@ -113,7 +124,7 @@ def run(chk):
                 if rng.random() < 0.3:
                     t = t[::-1]
                 tris.append(t)
-        st, pm = C.excname(lambda: coxeter.shapes.Polyhedron(np.array(p0.vertices), [np.array(t) for t in tris]))
+        st, pm = C.excname(lambda: coxeter.shapes.Polyhedron(np.array(p0.vertices), faces_as(rng, tris)))
         if st == "ok":
             st, _ = C.excname(pm.merge_faces)
         if st != "ok":
